@@ -140,7 +140,10 @@ fn main() {
                     gen_serve::gen_c03(&mut rng, thorough, &mut emit_serve);
                     gen_serve::gen_overflow_corner(&mut rng.fork(), false, &mut emit_serve);
                 }
-                "C04" => gen_serve::gen_c04(&mut rng, thorough, &mut emit_serve),
+                "C04" => {
+                    gen_serve::gen_c04(&mut rng, thorough, &mut emit_serve);
+                    gen_serve::gen_far_future(&mut emit_serve);
+                }
                 "C05" => gen_serve::gen_c05(&mut rng, thorough, &mut emit_serve),
                 "C06" => {
                     gen_serve::gen_c06(&mut rng, thorough, &mut emit_serve);
@@ -202,6 +205,7 @@ fn main() {
                 "C13" => {
                     gen_serve::gen_mixed(&mut rng, n_mixed * 3, "c13", &mut emit_serve);
                     gen_serve::gen_overflow_corner(&mut rng.fork(), thorough, &mut emit_serve);
+                    gen_serve::gen_far_future(&mut emit_serve);
                 }
                 "C14" => {
                     drop(emit_serve);
